@@ -2474,3 +2474,56 @@ def workflow_api_witness(ctx):
         if out[k] != "raise WorkflowError":
             diffs.append(f"{label} with a name that already exists gives {out[k] if isinstance(out[k], str) else 'a second target'}; expected WorkflowError (target names must be unique)")
     return 5, diffs, None
+
+
+def eval_workflow_map(ctx, name=None, inputs=("a", ("b", "c"), {"x": "d"})):
+    """Workflow.map with a recording template function; returns (names of the targets created, template call arguments) or an error string."""
+    idx = ctx.index
+    wcls = idx.cls("gwf.workflow:Workflow")
+    calls, made = [], []
+
+    def copy_file(*a, **k):
+        calls.append((a, dict(k)))
+        return Obj("template", inputs=list(a), outputs=[], options={}, working_dir=None, spec="S", protect=set(), group="g")
+
+    def construct(cls, args, kwargs):
+        if cls.name == "Target":
+            t = Obj("target", **dict(kwargs))
+            made.append(t)
+            return t
+        if cls.name == "TargetList":
+            return list(*args)
+        return NotImplemented
+
+    interp = PureInterp(ctx, hooks={"construct": construct})
+    interp.max_depth = 10
+    wf = Obj("workflow", name="wf", working_dir="/wfdir", defaults={}, targets={}, **{"__class__": wcls})
+    try:
+        res = interp.call(idx.method(wcls, "map"), (copy_file, list(inputs)), {"name": name, "extra": {"flag": 1}}, self_obj=wf)
+    except Raised as exc:
+        return f"raise {exc.kind}: {exc.detail[:60]}", calls
+    except Unsupported as exc:
+        return f"<unsupported: {exc}>", calls
+    return [getattr(t, "name", None) for t in list(res)], calls, sorted(wf.targets)
+
+
+def workflow_map_witness(ctx):
+    diffs, n = [], 0
+    for name, want in ((None, ["copy_file_0", "copy_file_1", "copy_file_2"]), ("Copy", ["Copy_0", "Copy_1", "Copy_2"]),
+                       ((lambda i, t: f"n{i}x"), ["n0x", "n1x", "n2x"])):
+        got = eval_workflow_map(ctx, name)
+        if isinstance(got[0], str) and got[0].startswith("<unsupported"):
+            return n, diffs, got[0]
+        n += 1
+        label = "no name" if name is None else f"name={name!r}" if isinstance(name, str) else "a naming function"
+        if isinstance(got[0], str):
+            diffs.append(f"Workflow.map over three items with {label} ends with {got[0]}")
+            continue
+        names, calls, registered = got
+        if names != want or registered != sorted(want):
+            diffs.append(f"Workflow.map over three items with {label} creates targets {names} (registered: {registered}); expected one target per item named {want} - "
+                         "distinct, deterministic, index-bearing names")
+        want_calls = [(("a",), {"flag": 1}), (("b", "c"), {"flag": 1}), ((), {"x": "d", "flag": 1})]
+        if calls != want_calls:
+            diffs.append(f"Workflow.map calls the template with {calls}; expected scalar -> one argument, sequence -> positional arguments, mapping -> keyword arguments, plus `extra`")
+    return n, diffs, None
